@@ -161,6 +161,8 @@ type scenario struct {
 	Clients [][]op
 	Recv    map[string]string // "s/rep/k" -> e500 | e403 | slow   (k = 0 init, k >= 1 k-th media request)
 	Gen     *genItem
+	// ConcCreate: the POSTs that create the sessions are issued concurrently (concurrent API calls)
+	ConcCreate bool
 }
 
 type genItem struct {
@@ -540,6 +542,10 @@ func (rn *run) exec() error {
 	rn.rec.emit(tr.E{"ev": "hdr", "desc": sc.Desc, "nsess": len(sc.Sess), "bound": int(rn.bound / time.Millisecond)})
 	sessEv := map[int]tr.E{}
 	t0 := map[int]int64{}
+	var cmu sync.Mutex
+	var cwg sync.WaitGroup
+	var createErr error
+	createStuck := false
 	for i, s := range sc.Sess {
 		si := i + 1
 		ev := sessEvent(si, s)
@@ -558,22 +564,47 @@ func (rn *run) exec() error {
 		if s.Dur >= 0 {
 			setup["duration"] = s.Dur
 		}
-		rn.rec.emit(tr.E{"ev": "call", "c": 0, "op": "create", "s": si})
-		t0[si] = time.Now().UnixMilli()
-		code, resp, ok := rn.api("POST", "/api/cmaf-ingests", setup)
-		if !ok {
-			rn.rec.emit(tr.E{"ev": "stuck", "c": 0, "op": "create", "s": si})
-			return nil
+		create := func() {
+			defer cwg.Done()
+			rn.rec.emit(tr.E{"ev": "call", "c": 0, "op": "create", "s": si})
+			cmu.Lock()
+			t0[si] = time.Now().UnixMilli()
+			cmu.Unlock()
+			code, resp, ok := rn.api("POST", "/api/cmaf-ingests", setup)
+			cmu.Lock()
+			defer cmu.Unlock()
+			if !ok {
+				rn.rec.emit(tr.E{"ev": "stuck", "c": 0, "op": "create", "s": si})
+				createStuck = true
+				return
+			}
+			var cr struct {
+				ID string `json:"id"`
+			}
+			_ = json.Unmarshal([]byte(resp), &cr)
+			if code != 201 || cr.ID == "" {
+				createErr = fmt.Errorf("create session failed: %d %s", code, resp)
+				return
+			}
+			rn.ids[si] = cr.ID
+			rn.rec.emit(tr.E{"ev": "ret", "c": 0, "op": "create", "s": si, "code": code})
 		}
-		var cr struct {
-			ID string `json:"id"`
+		cwg.Add(1)
+		if sc.ConcCreate {
+			go create()
+		} else {
+			create()
+			if createErr != nil || createStuck {
+				break
+			}
 		}
-		_ = json.Unmarshal([]byte(resp), &cr)
-		if code != 201 || cr.ID == "" {
-			return fmt.Errorf("create session failed: %d %s", code, resp)
-		}
-		rn.ids[si] = cr.ID
-		rn.rec.emit(tr.E{"ev": "ret", "c": 0, "op": "create", "s": si, "code": code})
+	}
+	cwg.Wait()
+	if createErr != nil {
+		return createErr
+	}
+	if createStuck {
+		return nil
 	}
 	// clients
 	var wg sync.WaitGroup
@@ -627,7 +658,7 @@ func (rn *run) exec() error {
 	}
 	wg.Wait()
 	// quiescence: wait (bounded) for what the served steps should deliver; waiting longer never causes an alarm
-	deadline := time.Now().Add(5 * time.Second)
+	deadline := time.Now().Add(10 * time.Second)
 	for {
 		okAll := true
 		rn.mu.Lock()
@@ -656,7 +687,7 @@ func (rn *run) exec() error {
 				continue
 			}
 			for _, r := range s.V.reps {
-				if rn.mediaEnds[fmt.Sprintf("%d/%s", si, r.ID)] < want {
+				if rn.mediaEnds[fmt.Sprintf("%d/%s", si, r.ID)] < want || (sc.ConcCreate && rn.perRep[fmt.Sprintf("%d/%s", si, r.ID)] < 1) {
 					okAll = false
 				}
 			}
@@ -885,7 +916,12 @@ func fixedScenarios(vs []variant, rng *rand.Rand, chunked bool) []*scenario {
 			for j := 0; j < steps; j++ {
 				ops = append(ops, op{Op: "step", S: 1})
 			}
-			ops = append(ops, op{Op: "get", S: 1}, op{Op: "delete", S: 1})
+			// let the last step's uploads finish before the DELETE (DELETE racing with uploads is covered by the random scenarios)
+			settle := 300
+			if v.chunked {
+				settle = 1500
+			}
+			ops = append(ops, op{Op: "get", S: 1}, op{Op: "sleep", MS: settle}, op{Op: "delete", S: 1})
 			sc := &scenario{Sess: []sessCfg{s}, Clients: [][]op{ops}, Recv: map[string]string{}}
 			sc.Desc = "fix " + descOf(sc)
 			res = append(res, sc)
@@ -944,6 +980,7 @@ func Main(args []string) error {
 	bound := fs.Int("stuckms", 3000, "an API call that has not returned after this many ms is recorded as stuck")
 	chunked := fs.Bool("chunked", true, "include chunked (low-latency) step-mode scenarios")
 	chunkerr := fs.Bool("chunkerr", true, "include the chunked session with a receiver answering 5xx")
+	nconc := fs.Int("nconc", 4, "number of scenarios with 64 concurrently created sessions")
 	rt := fs.Bool("realtime", false, "include real-time sessions (about 12 s)")
 	only := fs.String("only", "", "run only scenarios whose description contains this string")
 	verbose := fs.Bool("v", false, "print scenario descriptions")
@@ -1013,6 +1050,21 @@ func Main(args []string) error {
 		sc := &scenario{Sess: []sessCfg{{V: cv, Dur: -1, NowMS: nowFor(rng, 2000)}},
 			Clients: [][]op{{{Op: "step", S: 1}, {Op: "step", S: 1}}}, Recv: map[string]string{"1/A48/1": "e500"}}
 		sc.Desc = "chunkerr " + descOf(sc)
+		scens = append(scens, sc)
+	}
+	for i := 0; i < *nconc; i++ {
+		// 64 sessions created by concurrent POSTs, then one step for the first six
+		sc := &scenario{Recv: map[string]string{}, ConcCreate: true}
+		ops := []op{}
+		for j := 0; j < 64; j++ {
+			v := vs[(i+j)%3]
+			sc.Sess = append(sc.Sess, sessCfg{V: v, Streams: j%2 == 0, Dur: -1, NowMS: nowFor(rng, v.segDurMS)})
+			if j < 6 {
+				ops = append(ops, op{Op: "step", S: j + 1})
+			}
+		}
+		sc.Clients = [][]op{ops}
+		sc.Desc = fmt.Sprintf("conccreate %d x64 number/timeline/timelinenr", i)
 		scens = append(scens, sc)
 	}
 	if *rt {
@@ -1157,12 +1209,17 @@ func runParent(args []string, scens []*scenario, out string, par int, nGenTotal 
 			ncrash++
 			w.Emit(tr.E{"ev": "hdr", "scn": i + 1, "desc": sc.Desc, "nsess": len(sc.Sess), "bound": 0})
 			vn := []string{}
+			seen := map[string]bool{}
 			for j, s := range sc.Sess {
 				e := sessEvent(j+1, s)
 				e["scn"] = i + 1
 				w.Emit(e)
-				vn = append(vn, s.V.name)
+				if !seen[s.V.name] {
+					seen[s.V.name] = true
+					vn = append(vn, s.V.name)
+				}
 			}
+			sort.Strings(vn)
 			parts := strings.SplitN(o.crash, " :: ", 2)
 			w.Emit(tr.E{"ev": "crash", "scn": i + 1, "site": parts[0], "msg": parts[1], "variants": strings.Join(vn, ",")})
 			w.Emit(tr.E{"ev": "end", "scn": i + 1})
